@@ -17,7 +17,7 @@ AMPS = [0, 2, 8, 32, 128]
 
 
 @st.composite
-def panel_spec(draw, max_geos=6, min_geos=1, max_dates=30):
+def panel_spec(draw, max_geos=6, min_geos=1, max_dates=30, flat=False):
   n_test = draw(st.one_of(st.integers(1, 4), st.integers(1, 10)))
   n_dates = draw(st.integers(n_test + 3, max(n_test + 3, max_dates)))
   n_geos = draw(st.integers(min_geos, max_geos))
@@ -38,6 +38,13 @@ def panel_spec(draw, max_geos=6, min_geos=1, max_dates=30):
       'extra_col': draw(st.booleans()),
       'perm_seed': draw(st.integers(0, 10 ** 6)),
       'missing': [],
+      'resp_int': draw(st.integers(0, 4)) == 0,
+      # anti-phase geos (loading -1 on the common factor): negative correlations, group sums with a smaller spread than their parts
+      'sign': [draw(st.sampled_from([1, 1, 1, 1, 1, -1])) for _ in range(n_geos)],
+      # geos whose response is exactly constant over the last `len` dates (C01 only: legality does not depend on scores)
+      'flat': ([[draw(st.integers(0, n_geos - 1)), draw(st.sampled_from([n_dates, n_test + 3, max(n_test + 3, n_dates // 2)]))]
+                for _ in range(draw(st.integers(1, 2)))] if (flat and draw(st.integers(0, 2)) == 0) else []),
+      'date_str': draw(st.integers(0, 5)) == 0,
   }
 
 
@@ -73,12 +80,15 @@ def eligibility_spec(draw, ids, style=None):
 
 
 @st.composite
-def params_spec(draw, n_test, n_dates, n_geos, constraint_p=0.5, allow_budget=True, allow_share=True, degenerate=False):
+def params_spec(draw, n_test, n_dates, n_geos, constraint_p=0.5, allow_budget=True, allow_share=True, degenerate=False,
+                tight_sizes=False):
   def maybe():
     return draw(st.floats(0, 1)) < constraint_p
   p = {'iroas': draw(st.sampled_from([1.0, 1.0, 0.5, 3]))}
   p['n_designs'] = draw(st.sampled_from([1, 1, 2, 3, 5, 10, 50, 10000]))
   ranges = SIZE_RANGES if degenerate else [r for r in SIZE_RANGES if r[0] <= max(1, n_geos - 2)]
+  if tight_sizes:
+    ranges = [(1, 1), (1, 1), (2, 2), (1, 2), (3, 3), (4, 5), (5, 9)]      # often in conflict with fixed geos / eligible counts
   p['treatment_geos_range'] = list(draw(st.sampled_from(ranges))) if maybe() else None
   p['control_geos_range'] = list(draw(st.sampled_from(ranges))) if maybe() else None
   p['geo_ratio_tolerance'] = draw(st.sampled_from([0.25, 0.5, 1.0, 1.0, 2.0, 2.0, 3.0, 'inf', 0.1])) if maybe() else None
@@ -90,6 +100,8 @@ def params_spec(draw, n_test, n_dates, n_geos, constraint_p=0.5, allow_budget=Tr
   if allow_share and maybe():
     p['share_q'] = draw(st.sampled_from(['low', 'high'])) if (degenerate and draw(st.booleans())) else sorted(
         [draw(st.floats(0, 1)), draw(st.floats(0, 1))])
+  # bounds placed a few 1e-6 (relative) inside an attainable value instead of midway between two of them
+  p['edge'] = draw(st.sampled_from([None, None, 'near']))
   if allow_budget and maybe():
     p['budget_q'] = draw(st.sampled_from(['low', 'high'])) if ((degenerate or draw(st.integers(0, 9)) == 0) and draw(st.booleans())) else sorted(
         [draw(st.floats(0, 1)), draw(st.floats(0, 1))])
@@ -113,9 +125,10 @@ def params_spec(draw, n_test, n_dates, n_geos, constraint_p=0.5, allow_budget=Tr
 
 @st.composite
 def search_spec(draw, max_geos=6, min_geos=1, constraint_p=0.5, allow_budget=True, allow_share=True, degenerate=False,
-                elig_style=None, max_dates=30):
-  panel = draw(panel_spec(max_geos=max_geos, min_geos=min_geos, max_dates=max_dates))
+                elig_style=None, max_dates=30, flat=False, tight_sizes=False):
+  panel = draw(panel_spec(max_geos=max_geos, min_geos=min_geos, max_dates=max_dates, flat=flat))
   elig = draw(eligibility_spec(panel['ids'], elig_style))
-  params = draw(params_spec(panel['n_test'], panel['n_dates'], len(panel['ids']), constraint_p, allow_budget, allow_share, degenerate))
+  params = draw(params_spec(panel['n_test'], panel['n_dates'], len(panel['ids']), constraint_p, allow_budget, allow_share, degenerate,
+                            tight_sizes))
   return {'panel': panel, 'elig': elig, 'params': params,
           'history': draw(st.sampled_from([None, None, None, 'shared-data', 'reused-data']))}
